@@ -4,7 +4,6 @@ import (
 	"flag"
 	"fmt"
 	"reflect"
-	"regexp"
 	"sort"
 	"strings"
 
@@ -15,7 +14,7 @@ import (
 
 func init() { cmds["sql-roundtrip"] = sqlRoundTrip }
 
-var nearWord = regexp.MustCompile(`near '([A-Za-z_]+)'`)
+
 
 // dump renders a syntax tree canonically by reflection: type names and field values, with redundant parentheses
 // (ParenExpr around an expression) removed.  It has no knowledge of SQL.
@@ -84,6 +83,59 @@ func dump(b *strings.Builder, v reflect.Value, depth int) {
 	}
 }
 
+// needsQuotes reports whether a name is only valid SQL when back-quoted (a reserved word, or characters outside identifiers), as the printer itself decides.
+func needsQuotes(name string) bool {
+	return name != "" && strings.HasPrefix(sqlparser.String(sqlparser.NewColIdent(name)), "`")
+}
+
+// plainNames walks the tree by reflection and lists the names that need quotes but sit in nodes the vendored printer writes as plain text:
+// generic function names, INTERVAL units, CAST / CONVERT type and charset names, COLLATE charsets, names assigned by SET.
+func plainNames(v reflect.Value, depth int, out map[string]bool) {
+	if depth > 200 {
+		return
+	}
+	switch v.Kind() {
+	case reflect.Interface, reflect.Ptr:
+		if !v.IsNil() {
+			plainNames(v.Elem(), depth+1, out)
+		}
+	case reflect.Struct:
+		switch n := v.Interface().(type) {
+		case sqlparser.FuncExpr:
+			if needsQuotes(n.Name.String()) {
+				out["function name"] = true
+			}
+		case sqlparser.IntervalExpr:
+			if needsQuotes(n.Unit) {
+				out["interval unit"] = true
+			}
+		case sqlparser.ConvertTypeSimple:
+			if needsQuotes(n.Name) {
+				out["type name"] = true
+			}
+		case sqlparser.CollateExpr:
+			if needsQuotes(n.Charset) {
+				out["charset name"] = true
+			}
+		case sqlparser.SetExpr:
+			if needsQuotes(n.Name.String()) {
+				out["set name"] = true
+			}
+		}
+		for i := 0; i < v.NumField(); i++ {
+			if v.Type().Field(i).PkgPath == "" {
+				plainNames(v.Field(i), depth+1, out)
+			}
+		}
+	case reflect.Slice, reflect.Array:
+		if v.Type().Elem().Kind() != reflect.Uint8 {
+			for i := 0; i < v.Len(); i++ {
+				plainNames(v.Index(i), depth+1, out)
+			}
+		}
+	}
+}
+
 func dumpStmt(s sqlparser.Statement) string {
 	var b strings.Builder
 	dump(&b, reflect.ValueOf(s), 0)
@@ -116,23 +168,17 @@ func sqlRoundTrip(args []string) error {
 		}
 		printed := sqlparser.String(s1)
 		res["printed"] = printed
+		pn := map[string]bool{}
+		plainNames(reflect.ValueOf(s1), 0, pn)
+		names := []interface{}{}
+		for k := range pn {
+			names = append(names, k)
+		}
+		sort.Slice(names, func(i, j int) bool { return names[i].(string) < names[j].(string) })
+		res["quoted_names_in_plain_text_nodes"] = names
 		s2, err := sqlparser.Parse(printed)
 		if err != nil {
 			res["stage"], res["err"] = "parse2", err.Error()
-			// where the first tree keeps the word the second parse stumbles over: the names of plain string fields (as opposed to identifier
-			// nodes) whose value is that word
-			if m := nearWord.FindStringSubmatch(err.Error()); m != nil {
-				fields := map[string]bool{}
-				for _, f := range regexp.MustCompile(`(?i)(\w+):"`+regexp.QuoteMeta(m[1])+`"`).FindAllStringSubmatch(dumpStmt(s1), -1) {
-					fields[f[1]] = true
-				}
-				names := []interface{}{}
-				for k := range fields {
-					names = append(names, k)
-				}
-				sort.Slice(names, func(i, j int) bool { return names[i].(string) < names[j].(string) })
-				res["plain_string_fields"] = names
-			}
 			return nil
 		}
 		d1, d2 := dumpStmt(s1), dumpStmt(s2)
